@@ -267,6 +267,11 @@ impl<A: HApi> Sut for HSut<A> {
             v.push(Op::new(n, &[]));
         }
         v.push(Op::new("dlen", &[(d.size + d.cap) as i128]));
+        if d.size == 0 {
+            for c in [1i128, 8, 255, 65_536, 1 << 27, (1i128 << 32) - 1] {
+                v.push(Op::new("dlen", &[c]));
+            }
+        }
         if self.fill {
             v.push(Op::new("fill", &[self.fresh_base, (d.cap + 2) as i128]));
         }
@@ -328,7 +333,7 @@ impl<A: HApi> Sut for HSut<A> {
     }
     fn oracle(&self, pre: &[u8], op: &Op, out: &OpOut, post: &[u8]) -> Vec<Finding> {
         let mut f = vec![];
-        let prop = if op.name == "fill" { "C07" } else { "C02" };
+        let prop = if op.name == "fill" { "C07" } else if op.name == "dlen" { "C10" } else { "C02" };
         if out.panic.is_some() {
             if op.name != "init" {
                 f.push(Finding { property: prop, what: format!("`{}` panicked instead of answering: {}", op.text(), out.panic.clone().unwrap()) });
@@ -392,8 +397,12 @@ impl<A: HApi> Sut for HSut<A> {
         let x = Self::key_of(op.args.first().copied().unwrap_or(0));
         let expected: Option<String> = match op.name {
             "dlen" => {
-                let rec = if dq.slots > 0 { (post.len() - 16) / dq.slots } else { A::data_len(1) - A::data_len(0) };
-                let want = (16 + op.args[0] as usize * rec).to_string();
+                // record size from the layout rule (repr(C): two u32 registers, the value at its alignment)
+                let (vs, va) = A::val();
+                let voff = (8 + va - 1) / va * va;
+                let al = va.max(4);
+                let rec = (voff + vs + al - 1) / al * al;
+                let want = (16u128 + op.args[0] as u128 * rec as u128).to_string();
                 if want != out.result {
                     f.push(Finding { property: "C10", what: format!("data_len({}) is {} but header + records is {}", op.args[0], out.result, want) });
                 }
